@@ -9,6 +9,7 @@ import (
 	"context"
 	"fmt"
 	"math/rand"
+	"reflect"
 	"strings"
 
 	"go.opentelemetry.io/collector/confmap"
@@ -24,6 +25,7 @@ const telemetryBase = int64(1_500_000_000)
 type telDoc struct {
 	Section string         `json:"section"` // traces | logs | metrics
 	Kind    string         `json:"kind"`    // batch | simple | periodic | pull
+	Kinds   []string       `json:"kinds_of_all_entries"`
 	Exp     string         `json:"exporter"`
 	Fields  map[string]any `json:"exporter_settings"`
 	Unknown string         `json:"unknown_key_at,omitempty"` // "", entry, processor, exporter-map, exporter
@@ -91,29 +93,94 @@ func genTelDoc(rng *rand.Rand) *telDoc {
 	if d.Section == "metrics" {
 		list = "readers"
 	}
-	root := map[string]any{"telemetry": map[string]any{d.Section: map[string]any{list: []any{entry}}}}
+	entries := []any{entry}
+	d.Kinds = []string{d.Kind}
+	// more entries than the default list has (metrics::readers has one pull reader by default): every entry is exactly
+	// what was written for it
+	for n := rng.Intn(3); n > 0 && d.Unknown == ""; n-- {
+		k := d.Kind
+		if d.Section == "metrics" {
+			k = "periodic"
+		} else if rng.Intn(2) == 0 {
+			k = map[string]string{"batch": "simple", "simple": "batch"}[d.Kind]
+		}
+		entries = append(entries, map[string]any{k: map[string]any{"exporter": map[string]any{"console": map[string]any{}}}})
+		d.Kinds = append(d.Kinds, k)
+	}
+	root := map[string]any{"telemetry": map[string]any{d.Section: map[string]any{list: entries}}}
 	d.YAML = confgen.YAML(root, confgen.YAMLOpts{})
 	return d
 }
 
-func loadServiceSection(y string) (err error) {
+func loadServiceSection(y string) (*service.Config, error) {
 	r, err := confmap.NewResolver(confmap.ResolverSettings{URIs: []string{"yaml:" + y}, ProviderFactories: []confmap.ProviderFactory{yamlprovider.NewFactory()}})
 	if err != nil {
-		return err
+		return nil, err
 	}
 	c, err := r.Resolve(context.Background())
 	if err != nil {
-		return err
+		return nil, err
 	}
 	cfg := service.Config{Telemetry: *telemetry.NewFactory().CreateDefaultConfig().(*telemetry.Config)}
-	return c.Unmarshal(&cfg)
+	return &cfg, c.Unmarshal(&cfg)
+}
+
+// entryKinds reads, by reflection, which alternative (Batch / Simple / Periodic / Pull) each element of the loaded
+// processors / readers list holds.
+func entryKinds(cfg *service.Config, section string) ([]string, bool) {
+	v := reflect.ValueOf(cfg.Telemetry)
+	sec := v.FieldByName(map[string]string{"traces": "Traces", "logs": "Logs", "metrics": "Metrics"}[section])
+	if !sec.IsValid() {
+		return nil, false
+	}
+	for sec.Kind() == reflect.Ptr {
+		if sec.IsNil() {
+			return nil, false
+		}
+		sec = sec.Elem()
+	}
+	var list reflect.Value
+	var find func(v reflect.Value, name string) reflect.Value
+	find = func(v reflect.Value, name string) reflect.Value {
+		if v.Kind() != reflect.Struct {
+			return reflect.Value{}
+		}
+		if f := v.FieldByName(name); f.IsValid() {
+			return f
+		}
+		for i := 0; i < v.NumField(); i++ {
+			if v.Type().Field(i).Anonymous {
+				if f := find(v.Field(i), name); f.IsValid() {
+					return f
+				}
+			}
+		}
+		return reflect.Value{}
+	}
+	list = find(sec, map[string]string{"traces": "Processors", "logs": "Processors", "metrics": "Readers"}[section])
+	if !list.IsValid() || list.Kind() != reflect.Slice {
+		return nil, false
+	}
+	var out []string
+	for i := 0; i < list.Len(); i++ {
+		e := list.Index(i)
+		var set []string
+		for _, alt := range []string{"Batch", "Simple", "Periodic", "Pull"} {
+			if f := e.FieldByName(alt); f.IsValid() && f.Kind() == reflect.Ptr && !f.IsNil() {
+				set = append(set, strings.ToLower(alt))
+			}
+		}
+		out = append(out, strings.Join(set, "+"))
+	}
+	return out, true
 }
 
 func runTelemetry(c *driver.Ctx, i int64, rng *rand.Rand) {
 	d := genTelDoc(rng)
 	c.Eval()
 	var err error
-	pv, stack := driver.Catch(func() { err = loadServiceSection(d.YAML) })
+	var cfg *service.Config
+	pv, stack := driver.Catch(func() { cfg, err = loadServiceSection(d.YAML) })
 	c.Observe("telemetry_section_documents", 1)
 	c.Nontrivial("telemetry", d.Section, d.Kind, d.Exp, fmt.Sprint(len(d.Fields)), d.Unknown, fmt.Sprint(d.Fields["endpoint"] != nil))
 	sig := []string{"section", "service::telemetry", "kind", d.Kind, "exporter", d.Exp}
@@ -137,6 +204,15 @@ func runTelemetry(c *driver.Ctx, i int64, rng *rand.Rand) {
 		c.Observe("telemetry_documents_rejected:"+errClass(err), 1)
 	default:
 		c.Observe("telemetry_documents_loaded", 1)
+		if got, ok := entryKinds(cfg, d.Section); ok {
+			c.Observe("telemetry_entry_lists_compared", 1)
+			if strings.Join(got, ",") != strings.Join(d.Kinds, ",") {
+				c.Violation("faith", fmt.Sprintf("service::telemetry::%s: the list was written with entries %v, the loaded configuration holds %v (an entry with two alternatives carries a leftover of the default list)", d.Section, d.Kinds, got),
+					map[string]any{"document": d, "loaded_entry_kinds": got}, append(sig, "kind2", "list-entries-differ", "written", fmt.Sprint(len(d.Kinds)))...)
+			}
+		} else {
+			c.Observe("telemetry_entry_lists_not_readable", 1)
+		}
 	}
 }
 
